@@ -43,7 +43,7 @@ def run(ctx):
         if not m or not g.body:
             continue
         nio += 1
-        sg = [path_sig(p)[1] for p in nonpanic(walk(g))]
+        sg = [path_sig(p)[1] for p in nonpanic(walk(g, inline=shared._ONLY_BISTREAM_ACCESSORS))]
         ctx.check("C01-R3", "%s::%s (tokio) delegates to the same method" % (m.group(1).split("::")[-1], m.group(3)),
                   len(sg) == 1 and re.match(r"^return (<\w+ as Async(Read|Write)>|Async(Read|Write))::%s\(self\.[\w.]+,cx(,\w+)?\)$" % m.group(3), sg[0]) is not None,
                   "%s does not delegate to the wrapped stream's %s: %s" % (g.path, m.group(3), sg), where(g), key="tokio delegation|%s" % g.path.replace("wtransport::", ""))
@@ -81,7 +81,7 @@ def run(ctx):
     UPB = r"await\(<impl .*?BiLocal, H3>>>::upgrade\(<impl .*?BiLocal, Quic>>>::upgrade\(quic_stream\),session_id\)\)"
     rows = [
         {"name": "preamble written->(SendStream, RecvStream) over the same stream", "atoms": [r"^%s ok$" % UPB],
-         "leaf": r"^return Result::Ok\(\(SendStream::new\(<impl .*?BiLocal, WT>>>::into_stream\(ok\(%s\)\)\.0\),RecvStream::new\(<impl .*?BiLocal, WT>>>::into_stream\(ok\(%s\)\)\.1\)\)\)$" % (UPB, UPB)},
+         "leaf": r"^return Result::Ok\(\(SendStream\(<impl .*?BiLocal, WT>>>::into_stream\(ok\(%s\)\)\.0\),RecvStream\(<impl .*?BiLocal, WT>>>::into_stream\(ok\(%s\)\)\.1\)\)\)$" % (UPB, UPB)},
         {"name": "stopped->Refused", "atoms": [r" is Stopped$"], "leaf": r"^return Result::Err\(StreamOpeningError::Refused\)$"},
         {"name": "not connected", "atoms": [r" is NotConnected$"], "leaf": r"^return Result::Err\(StreamOpeningError::NotConnected\)$"},
     ]
